@@ -111,101 +111,52 @@ impl CallingConvention {
         match typ {
             CallingConventionType::AArch64 => {
                 // <https://github.com/ARM-software/abi-aa/blob/main/aapcs64/aapcs64.rst#general-purpose-registers>
-                let argument_registers = vec![
-                    il::scalar("x0", 64),
-                    il::scalar("x1", 64),
-                    il::scalar("x2", 64),
-                    il::scalar("x3", 64),
-                    il::scalar("x4", 64),
-                    il::scalar("x5", 64),
-                    il::scalar("x6", 64),
-                    il::scalar("x7", 64),
-                    il::scalar("v0", 64),
-                    il::scalar("v1", 64),
-                    il::scalar("v2", 64),
-                    il::scalar("v3", 64),
-                    il::scalar("v4", 64),
-                    il::scalar("v5", 64),
-                    il::scalar("v6", 64),
-                    il::scalar("v7", 64),
-                ];
+                //
+                // Registers are named as the AArch64 translator names them:
+                // 64-bit `x0`-`x30` and `sp`, 128-bit `v0`-`v31`.
+                //
+                // Integer arguments are passed in x0-x7 and then on the stack.
+                // Floating-point/SIMD arguments are allocated independently
+                // in v0-v7, and are not part of this integer argument order.
+                let argument_registers: Vec<il::Scalar> = (0..8)
+                    .map(|i| il::scalar(format!("x{}", i), 64))
+                    .collect();
+
+                // x19-x28 and the frame pointer x29 are callee-saved, and the
+                // stack pointer is the same after a call returns.
                 let mut preserved_registers = HashSet::new();
-                preserved_registers.insert(il::scalar("x19", 64));
-                preserved_registers.insert(il::scalar("x20", 64));
-                preserved_registers.insert(il::scalar("x21", 64));
-                preserved_registers.insert(il::scalar("x22", 64));
-                preserved_registers.insert(il::scalar("x23", 64));
-                preserved_registers.insert(il::scalar("x24", 64));
-                preserved_registers.insert(il::scalar("x25", 64));
-                preserved_registers.insert(il::scalar("x26", 64));
-                preserved_registers.insert(il::scalar("x27", 64));
-                preserved_registers.insert(il::scalar("x28", 64));
+                for i in 19..=29 {
+                    preserved_registers.insert(il::scalar(format!("x{}", i), 64));
+                }
+                preserved_registers.insert(il::scalar("sp", 64));
 
-                preserved_registers.insert(il::scalar("v8", 128));
-                preserved_registers.insert(il::scalar("v9", 128));
-                preserved_registers.insert(il::scalar("v10", 128));
-                preserved_registers.insert(il::scalar("v11", 128));
-                preserved_registers.insert(il::scalar("v12", 128));
-                preserved_registers.insert(il::scalar("v13", 128));
-                preserved_registers.insert(il::scalar("v14", 128));
-                preserved_registers.insert(il::scalar("v15", 128));
-
+                // x0-x7 arguments/results, x8 indirect result, x9-x15
+                // temporaries, x16/x17 intra-procedure-call scratch registers.
+                // x18 is the platform register, and x30 is the link register;
+                // these are in neither set.
                 let mut trashed_registers = HashSet::new();
-                trashed_registers.insert(il::scalar("x0", 64));
-                trashed_registers.insert(il::scalar("x1", 64));
-                trashed_registers.insert(il::scalar("x2", 64));
-                trashed_registers.insert(il::scalar("x3", 64));
-                trashed_registers.insert(il::scalar("x4", 64));
-                trashed_registers.insert(il::scalar("x5", 64));
-                trashed_registers.insert(il::scalar("x6", 64));
-                trashed_registers.insert(il::scalar("x7", 64));
-                trashed_registers.insert(il::scalar("x8", 64));
-                trashed_registers.insert(il::scalar("x9", 64));
-                trashed_registers.insert(il::scalar("x10", 64));
-                trashed_registers.insert(il::scalar("x11", 64));
-                trashed_registers.insert(il::scalar("x12", 64));
-                trashed_registers.insert(il::scalar("x13", 64));
-                trashed_registers.insert(il::scalar("x14", 64));
-                trashed_registers.insert(il::scalar("x15", 64));
-                trashed_registers.insert(il::scalar("x16", 64));
-                trashed_registers.insert(il::scalar("x17", 64));
-                // trashed_registers.insert(il::scalar("x18", 64)); // platform-dependent
-
-                trashed_registers.insert(il::scalar("x0", 128));
-                trashed_registers.insert(il::scalar("x1", 128));
-                trashed_registers.insert(il::scalar("x2", 128));
-                trashed_registers.insert(il::scalar("x3", 128));
-                trashed_registers.insert(il::scalar("x4", 128));
-                trashed_registers.insert(il::scalar("x5", 128));
-                trashed_registers.insert(il::scalar("x6", 128));
-                trashed_registers.insert(il::scalar("x7", 128));
-                trashed_registers.insert(il::scalar("x16", 128));
-                trashed_registers.insert(il::scalar("x17", 128));
-                trashed_registers.insert(il::scalar("x18", 128));
-                trashed_registers.insert(il::scalar("x19", 128));
-                trashed_registers.insert(il::scalar("x20", 128));
-                trashed_registers.insert(il::scalar("x21", 128));
-                trashed_registers.insert(il::scalar("x22", 128));
-                trashed_registers.insert(il::scalar("x23", 128));
-                trashed_registers.insert(il::scalar("x24", 128));
-                trashed_registers.insert(il::scalar("x25", 128));
-                trashed_registers.insert(il::scalar("x26", 128));
-                trashed_registers.insert(il::scalar("x27", 128));
-                trashed_registers.insert(il::scalar("x28", 128));
-                trashed_registers.insert(il::scalar("x29", 128));
-                trashed_registers.insert(il::scalar("x30", 128));
-                trashed_registers.insert(il::scalar("x31", 128));
+                for i in 0..=17 {
+                    trashed_registers.insert(il::scalar(format!("x{}", i), 64));
+                }
+                // v0-v7 arguments/results and v16-v31 temporaries. Only the
+                // low 64 bits of v8-v15 are callee-saved, so these 128-bit
+                // registers are in neither set.
+                for i in (0..=7).chain(16..=31) {
+                    trashed_registers.insert(il::scalar(format!("v{}", i), 128));
+                }
 
                 // TODO: FPSR, NZCV, SVE
 
                 let return_type = ReturnAddressType::Register(il::scalar("x30", 64));
 
+                // Stacked arguments start at the stack pointer at function
+                // entry, and each takes a multiple of 8 bytes.
                 CallingConvention {
                     argument_registers,
                     preserved_registers,
                     trashed_registers,
                     stack_argument_offset: 0,
-                    stack_argument_length: 4,
+                    stack_argument_length: 8,
                     return_address_type: return_type,
                     return_register: il::scalar("x0", 64),
                 }
